@@ -51,6 +51,9 @@ pub fn interesting_forms() -> Vec<String> {
         "add M,S,S", "add M,S,i", "add M,S,I", "add M,M,S", "add M,M,S d=a", "add S,S,M d=a", "sub S,M,S", "sub M,S,S", "sub S,S,S", "sub S,i,S",
         "sub M,i,S", "mul S,M,M", "mul S,S,S d=a", "mul S,S,i", "mul S,S,I", "mul S,M,i", "mul S,M,I", "mul M,S,i", "mul M,S,I", "mul S,M,S",
         "copy S,M", "copy M,S", "copy S,i", "copy S,I", "copy S,S", "copy S,R", "copy R,S", "copy M,I", "add M,M,I d=a", "mul M,M,I",
+        "add R,R,I d=a", "add M,R,I", "add R,M,I", "add S,M,I", "add R,R,S", "add S,R,S", "add S,R,R", "add R,S,S", "mul S,S,i d=a",
+        "mul S,R,S", "mul S,R,R", "mul S,R,i", "mul R,R,S", "mul M,M,S d=a", "sub M,S,R", "sub M,S,M d=b", "sub R,S,R", "sub S,S,R",
+        "sub S,R,R", "sub M,R,S", "mul R,S,i", "mul R,R,I", "mul R,R,I d=a", "mul M,R,I", "mul R,M,I",
     ]
     .iter()
     .map(|s| s.to_string())
